@@ -8,6 +8,9 @@
 //	hostile <inner case...>                the inner case in a subprocess under `ulimit -v` (absurd sizes / counts)
 //	badhdr <fmt> <file> <ngood> <tokens...> file = render(tokens) ++ a header line with a blank key ++ a valid request
 //	cfghdr <header text>                   uri provider on "/a\n" with this entry in the config `headers` list
+//	tfunc <text>                           scenario template function text (randInt(..), randString(..), uuid()) through
+//	                                       templater.ParseFunc + ExecTemplateFunc, as variable sources and preprocessors do
+//	nosrc <fmt> <preload> <passes> <limit> <file>   http provider on a source without entries
 //	shoot <text>                           config.ParseShootName
 //	conv <http|grpc> <shoot>...            scenario NewProvider on a generated YAML, request list of the scenario
 //	weights <w>...                         scenario NewProvider with these scenario weights
@@ -408,6 +411,31 @@ func ints(fs []string) []int64 {
 func runCase(c string) string {
 	f := strings.Split(c, " ")
 	switch f[0] {
+	case "tfunc":
+		return guard(func() string {
+			text := string(vh.UnHex(f[1]))
+			fun, args := templater.ParseFunc(text)
+			if fun == nil {
+				return "nofunc"
+			}
+			v, err := templater.ExecTemplateFunc(fun, args)
+			if err != nil {
+				return "err"
+			}
+			switch {
+			case strings.HasPrefix(text, "randInt"):
+				return "ok int " + v
+			case strings.HasPrefix(text, "randString"):
+				return fmt.Sprintf("ok len %d", len([]rune(v)))
+			default:
+				return fmt.Sprintf("ok len %d", len(v))
+			}
+		})
+	case "nosrc":
+		pre := f[2] == "1"
+		ps, _ := strconv.Atoi(f[3])
+		lim, _ := strconv.Atoi(f[4])
+		return a07ammo.RunProviderCfg(decoderName(f[1]), vh.UnHex(f[5]), acquireN, uint(ps), uint(lim), pre, nil)
 	case "cfghdr":
 		return a07ammo.RunProviderCfg("uri", []byte("/a\n"), 2, 0, 0, false, []string{string(vh.UnHex(f[1]))})
 	case "ammo", "pfx", "trunc", "badhdr":
